@@ -51,10 +51,75 @@ def parsed(pattern, flags=0):
     if key not in _cache:
         try:
             tree = P.parse(pattern, flags)
+            _cache[key] = (tree, tree.state.flags, dict(tree.state.groupdict), tree.state.groups)
         except re.error as e:
-            raise Unsupported("pattern not parseable by the stdlib parser: %r (%s)" % (pattern, e))
-        _cache[key] = (tree, tree.state.flags, dict(tree.state.groupdict), tree.state.groups)
+            if "redefinition of group name" in str(e):
+                _cache[key] = _parse_with_duplicate_names(pattern, flags)
+            else:
+                raise Unsupported("pattern not parseable by the stdlib parser: %r (%s)" % (pattern, e))
     return _cache[key]
+
+
+def _parse_with_duplicate_names(pattern, flags):
+    """the `regex` module lets alternatives reuse a group name; such groups SHARE one group number.
+    Parse with the duplicates renamed, then renumber: duplicates take the number of the first."""
+    import re as _re
+
+    seen = {}
+    alias = {}
+
+    def ren(m):
+        name = m.group(1)
+        k = seen.get(name, 0)
+        seen[name] = k + 1
+        if k == 0:
+            return m.group(0)
+        new = "%s__dup%d" % (name, k)
+        alias[new] = name
+        return "(?P<%s>" % new
+
+    renamed = _re.sub(r"\(\?P<([A-Za-z_][A-Za-z0-9_]*)>", ren, pattern)
+    try:
+        tree = P.parse(renamed, flags)
+    except re.error as e:
+        raise Unsupported("pattern not parseable by the stdlib parser: %r (%s)" % (pattern, e))
+    gd = dict(tree.state.groupdict)
+    # old group id -> new group id (regex numbering: a duplicate name reuses the first one's number)
+    first_id = {}
+    remap = {}
+    nxt = 1
+    id_to_name = {v: k for k, v in gd.items()}
+    for old in range(1, tree.state.groups):
+        nm = id_to_name.get(old)
+        base = alias.get(nm, nm) if nm else None
+        if base is not None and base in first_id:
+            remap[old] = first_id[base]
+        else:
+            remap[old] = nxt
+            if base is not None:
+                first_id[base] = nxt
+            nxt += 1
+
+    def rewrite(nodes):
+        out = []
+        for op, av in nodes:
+            if op == C.SUBPATTERN:
+                g, a, d, p = av
+                out.append((op, (remap.get(g, g) if g is not None else None, a, d, rewrite(p))))
+            elif op in (C.MAX_REPEAT, C.MIN_REPEAT):
+                out.append((op, (av[0], av[1], rewrite(av[2]))))
+            elif op == C.BRANCH:
+                out.append((op, (av[0], [rewrite(x) for x in av[1]])))
+            elif op in (C.ASSERT, C.ASSERT_NOT):
+                out.append((op, (av[0], rewrite(av[1]))))
+            elif op == C.GROUPREF:
+                out.append((op, remap.get(av, av)))
+            else:
+                out.append((op, av))
+        return out
+
+    new_gd = {name: first_id[name] for name in first_id}
+    return (rewrite(tree), tree.state.flags, new_gd, nxt)
 
 
 def _is_word(it):
